@@ -160,14 +160,8 @@ Section Inner.
 (* [cmdf] is Runner.cmd with one unit of fuel less *)
 Variable cmdf : cmd -> st -> st.
 
-Definition stmt_sync (neg : bool) (c : cmd) (s : st) : st :=
-  let s1 :=
-    if ok s then
-      if neg then
-        let old := noErrExit s in
-        set_noErrExit old (cmdf c (set_noErrExit true s))
-      else cmdf c s
-    else s in
+(* stmtSync, second half: negation, errexit (after r.cmd has run) *)
+Definition sync_post (neg : bool) (c : cmd) (s1 : st) : st :=
   if neg then
     if returning (ex s1) || exiting (ex s1) then s1
     else if ok s1 then set_code 1 s1
@@ -178,6 +172,18 @@ Definition stmt_sync (neg : bool) (c : cmd) (s : st) : st :=
     (* trapCallback(callbackErr): no traps in the core language *)
     if errexit s1 then set_ex (mkExit (code (ex s1)) (returning (ex s1)) true (fatalExit (ex s1))) s1 else s1
   else s1.
+
+(* stmtSync, first half: r.cmd, under noErrExit for a negated statement *)
+Definition sync_run (neg : bool) (c : cmd) (s : st) : st :=
+  if ok s then
+    if neg then
+      let old := noErrExit s in
+      set_noErrExit old (cmdf c (set_noErrExit true s))
+    else cmdf c s
+  else s.
+
+Definition stmt_sync (neg : bool) (c : cmd) (s : st) : st :=
+  sync_post neg c (sync_run neg c s).
 
 Definition rstmt (t : stmt) (s : st) : st :=
   let '(Stmt neg c) := t in
@@ -318,9 +324,14 @@ Definition cmd_step (fuel : nat) (c : cmd) (s : st) : st :=
   end.
 End Inner.
 
+(* out of fuel at the head of Runner.cmd (after its stop() test) *)
+Definition cmd_nofuel (s : st) : st :=
+  let '(b, s) := stop s in
+  if b then s else set_stuck true s.
+
 Fixpoint run (fuel : nat) (c : cmd) (s : st) {struct fuel} : st :=
   match fuel with
-  | O => set_stuck true s
+  | O => cmd_nofuel s
   | S fuel' => cmd_step (run fuel') fuel' c s
   end.
 
